@@ -102,10 +102,17 @@ func recursing(l []string) (string, int) {
 	for _, f := range l {
 		cnt[f]++
 	}
-	best, n := "unknown", 0
+	n := 0
+	for _, c := range cnt {
+		if c > n {
+			n = c
+		}
+	}
+	// mutual recursion: the members' counts differ by one depending on where the trace was cut
+	best := "unknown"
 	for f, c := range cnt {
-		if c > n || (c == n && f < best) {
-			best, n = f, c
+		if c >= n-1 && c*2 > n && (best == "unknown" || f < best) {
+			best = f
 		}
 	}
 	return best, n
